@@ -56,6 +56,7 @@ class Cfg:
         self.real_subnormal = True
         self.max_members = 6
         self.odd_names = True
+        self.violate = 0                 # probability that a constrained node gets an out-of-constraint value
         self.__dict__.update(kw)
 
 
@@ -545,9 +546,101 @@ def real_values(cfg):
     return s
 
 
+def _unsigned_repr(cons):
+    """Does asn1c keep this constrained INTEGER in an unsigned long? (asn1c_type_fits_long)"""
+    if cons is None or cons.ext:
+        return False
+    lb, ub = cons.lb(), cons.ub()
+    if lb is not None and 0 <= lb <= 2147483647 and ub is None:
+        return True
+    return lb is not None and lb >= 0 and ub is not None and 2147483647 < ub <= 4294967295
+
+
+def _outside_int(cons):
+    """Integers NOT satisfying a (non-extensible) constraint, representable in the native C type."""
+    lo_lim = 0 if _unsigned_repr(cons) else I64_MIN
+    hi_lim = I64_MAX
+    cands = []
+    for lo, hi in cons.ranges:
+        if lo is not None:
+            cands += [lo - 1, lo - 2, lo - 1000]
+        if hi is not None:
+            cands += [hi + 1, hi + 2, hi + 1000]
+    cands += [0, -1, 1, 127, 128, 255, 256, 65535, 65536, -129, (1 << 31), -(1 << 31) - 1, I64_MAX, I64_MIN]
+    ok = sorted({c for c in cands if lo_lim <= c <= hi_lim and not cons.contains_root(c)})
+    return st.sampled_from(ok) if ok else None
+
+
+def _bad_len(size, max_len):
+    """Lengths outside a SIZE constraint."""
+    c = []
+    for lo, hi in size.ranges:
+        if lo:
+            c += [lo - 1, 0]
+        if hi is not None:
+            c += [hi + 1, hi + 2]
+    ok = sorted({x for x in c if 0 <= x <= 70000 and not size.contains_root(x)})
+    return st.sampled_from(ok) if ok else None
+
+
 def values(mod, t, cfg=None, depth=0, max_len=12):
     """Strategy for abstract values of type t (valid with respect to its constraints)."""
     cfg = cfg or Cfg()
+    if getattr(cfg, "violate", 0) and depth < 6:
+        return _maybe_violating(mod, t, cfg, depth, max_len)
+    return _values(mod, t, cfg, depth, max_len)
+
+
+def _maybe_violating(mod, t, cfg, depth, max_len):
+    """Like values(), but a constrained node produces an out-of-constraint value with probability ~cfg.violate."""
+    rt = mod.resolve(t)
+    k = rt.kind
+    good = _values(mod, t, cfg, depth, max_len)
+    bad = None
+    if k == "INTEGER" and rt.cons and not rt.cons.ext:
+        bad = _outside_int(rt.cons)
+    elif k in ("OCTETSTRING", "BITSTRING") and rt.size and not rt.size.ext:
+        bl = _bad_len(rt.size, max_len)
+        if bl is not None:
+            if k == "OCTETSTRING":
+                bad = bl.map(lambda n: bytes((i * 7 + 1) & 0xff for i in range(n)))
+            else:
+                bad = bl.map(lambda n: (bytes([0xff] * ((n + 7) // 8))[:(n + 7) // 8 - (1 if n % 8 else 0)] +
+                                        (bytes([(0xff << (8 - n % 8)) & 0xff]) if n % 8 else b""), n))
+    elif k in STR_KINDS:
+        alpha = _alphabet_of(rt)
+        opts = []
+        if rt.size and not rt.size.ext:
+            bl = _bad_len(rt.size, max_len)
+            if bl is not None:
+                opts.append(bl.map(lambda n: chr(alpha[0]) * n))
+        if k in KM_STRINGS and k not in ("BMPString", "UniversalString") and not (rt.alpha and rt.alpha.ext):
+            full = builtin_alphabet(k)
+            inside = set(alpha) if rt.alpha else set(full)
+            outs = [c for c in ([0x2a, 0x40, 0x7e, 0x41, 0x7a, 0x30, 0x20] + ([0xe9] if k != "IA5String" else [0x7f]))
+                    if c not in inside and c < 256]
+            if k == "IA5String":
+                outs = [c for c in outs if c in inside or c < 128 or True]
+            if outs:
+                lens = _len_strategy(rt.size, max_len, False)
+                opts.append(st.tuples(lens, st.sampled_from(outs), st.integers(0, 50)).map(
+                    lambda p: (chr(alpha[0]) * p[0])[:max(0, min(p[2], p[0] - 1))] + chr(p[1]) +
+                              (chr(alpha[0]) * p[0])[max(0, min(p[2], p[0] - 1)) + 1:] if p[0] else chr(p[1])))
+        if opts:
+            bad = st.one_of(opts)
+    elif k in ("SEQOF", "SETOF") and rt.size and not rt.size.ext:
+        bl = _bad_len(rt.size, 6)
+        if bl is not None:
+            ev = values(mod, rt.elem, cfg, depth + 1, max_len)
+            bad = bl.flatmap(lambda n: st.lists(ev, min_size=min(n, 3), max_size=min(n, 3)).map(
+                lambda l: (l * (n // max(1, len(l)) + 1))[:n] if l else []))
+    if bad is None:
+        return good
+    p = cfg.violate
+    return st.integers(0, 99).flatmap(lambda r: bad if r < int(p * 100) else good)
+
+
+def _values(mod, t, cfg, depth=0, max_len=12):
     rt = mod.resolve(t)
     k = rt.kind
     if k == "BOOLEAN":
